@@ -37,6 +37,10 @@ impl Regex {
         })
     }
 
+    pub fn is_case_insensitive(&self) -> bool {
+        self.case_insensitive
+    }
+
     pub fn is_match(&self, s: &str) -> bool {
         self.regex.is_match(s)
     }
